@@ -856,6 +856,14 @@ class RTDCBase(abc.ABC):
                 "ignored_basins": bd_keys,
             }
 
+            if (bc[bdict["format"]].basin_type == "file"
+                    and not self._local_basins_allowed):
+                # The basin format accesses the local file system, no
+                # matter which type the basin definition claims to have.
+                warnings.warn(f"Basin format '{bdict['format']}' not allowed "
+                              f"for format '{self.format}'")
+                continue
+
             # Check whether this basin is supported and exists
             if bdict["type"] == "internal":
                 b_cls = bc[bdict["format"]]
